@@ -33,6 +33,10 @@ class ReplayDivergence(InfraError):
     pass
 
 
+class TreeTooLarge(InfraError):
+    """The choice tree of one instance exceeds the stated cap: the instance is skipped and counted, never sampled."""
+
+
 _ACTIVE = None  # the Run currently executing, or None
 
 _NAMES = ["random", "choice", "choices", "shuffle", "sample", "randrange", "randint", "uniform"]
@@ -642,7 +646,7 @@ def explore(body, on_leaf, max_points=10_000, shuffle_alts=None, track_prob=True
         if leaf.cut:
             st.cut_leaves += 1
         if max_leaves is not None and st.leaves > max_leaves:
-            raise InfraError(f"choice tree larger than the stated cap of {max_leaves} leaves")
+            raise TreeTooLarge(f"choice tree larger than the stated cap of {max_leaves} leaves")
         on_leaf(leaf)
         if recheck_every and (st.leaves % recheck_every == 0):
             again = execute(body, leaf.run.choice_list(), max_points, shuffle_alts, track_prob, observer)
